@@ -189,6 +189,39 @@ def oracle(case, r):
             if s0 is not None and 0 < s0 < e0 <= len(cont) and cont[s0 - 1] != "\n" and cont[e0 - 1] == "\n" and e0 < len(cont):
                 # the cut starts in the middle of a line and swallows its line end: the next line is fused to the previous text
                 fid = fid or "F14-cut-fuses-lines"
+    if fid is None and fmt in R.MERGEABLE:
+        # the appended reference block is swallowed by an entry that starts in the kept localized text
+        for call in v.get("merge_calls", [])[-1:]:
+            cont = call.get("contents") or ""
+            appended = bool(call.get("missing")) or any(not x[2] for x in call.get("skips", []))
+            if appended:
+                kept, off = 0, 0
+                for s0, e0, isj, ra in sorted([x for x in call.get("skips", []) if x[0] is not None], key=lambda x: x[0]):
+                    kept += max(0, s0 - off)
+                    off = max(off, e0)
+                kept += max(0, len(cont) - off)
+                for e in (v.get("merged_parse") or {}).get("entities", []):
+                    sp = e[3] if len(e) > 3 else None
+                    if sp and sp[0] < kept < sp[1]:
+                        fid = "F17-entry-spans-splice-boundary"
+    if fid in ("F4-properties-trailing-backslash", "F14-cut-fuses-lines", "F17-entry-spans-splice-boundary"):
+        # these findings are about what a CORRECT splice does to the parse; if the staged bytes are not the
+        # specified splice (cut spans + "\n" + newline-terminated reference entries) it is a different defect
+        for call in v.get("merge_calls", [])[-1:]:
+            cont = call.get("contents") or ""
+            body, off = [], 0
+            for s0, e0, isj, ra in sorted([x for x in call.get("skips", []) if x[0] is not None], key=lambda x: x[0]):
+                body.append(cont[off:s0])
+                off = e0
+            body.append(cont[off:])
+            ens = lambda t: t if t.endswith("\n") else t + "\n"
+            tr = ""
+            if call.get("missing") or call.get("skips"):
+                tr = "".join(ens(t) for t in ["\n"] + [m or "" for m in call.get("missing", [])] +
+                             [ra or "" for s0, e0, isj, ra in sorted(call.get("skips", []), key=lambda x: (x[0] is None, x[0])) if not isj])
+            spec = "".join(body) + tr
+            if merged.encode("latin-1").decode("utf-8", "replace") != spec:
+                fid = None
     if "report2_exc" in v:
         f2 = "F2-po-tuple-keys" if fmt == "po" else fid
         bad.append(("re-comparison of the staged file raised %s" % v["report2_exc"], f2))
